@@ -30,7 +30,8 @@ ASSUMPTIONS = [
     'fragment=True (element-topped tree): an absolute path with steps starts at the top element (fn:root()); XPDY0050 is accepted as well; the bare expression "/" gets no verdict there, nor as a sub-expression on an Element root with fragment=None where it denotes the hidden implicit document (counted)',
     'libxml2 differential excludes, by construction and counted: following/preceding evaluated from an attribute or namespace '
     'context node (libxml2 starts from the parent element), positional predicates over >= 2 attributes/namespace nodes of one '
-    'element (order is implementation-dependent), preceding:: evaluated from a child of the document node (libxml2 stops '
+    'element (order is implementation-dependent), positional predicates numbering a list that contains namespace nodes (libxml2 '
+    'materialises namespace nodes per element and orders them differently against other nodes), preceding:: evaluated from a child of the document node (libxml2 stops '
     'at the first child of the document and so omits it: xmlXPathNextPrecedingInternal); results containing namespace nodes are compared as multisets of (prefix, uri); '
     'document nodes are not representable in lxml results and are dropped on both sides',
     'for ElementTree trees the in-scope namespaces are xml plus the namespaces argument (p, q)',
@@ -558,6 +559,8 @@ def judge_lxml(case, rec: Recorder | None = None) -> list[Disc]:
             classes.append('lxml:excluded-positional-over-attrs-or-ns')
         elif info.preceding_from_doc_child:
             classes.append('lxml:excluded-preceding-from-document-child')
+        elif info.ns_positional:
+            classes.append('lxml:excluded-positional-over-namespace-nodes')
         else:
             classes.append('lxml:verdict')
             want = lx(ast, rctx)
